@@ -309,6 +309,26 @@ def check_trim_fn(cfg, w, rep, g):
             elif opn in ("Ge", "Le"):
                 ge_true = (opn == "Ge" and pos_first) or (opn == "Le" and not pos_first)
                 allowed.add((bi, switch_target(tu, 1 if ge_true else 0)))
+    # what the file is cut to: the written length (the parameter compared above), not the mapping's own length (a no-op)
+    from ..symval import walk as _walk
+    pos_params = set()
+    for (bi, tu, o) in lts:
+        for x in o.info.ops:
+            t_ = w.sym.of_operand(body, x)
+            if t_[0] == "param":
+                pos_params.add(t_[:3])
+    for e in w.own_effects(g):
+        if e.kind == "HandleMut" and e.body is body and e.term.callee.path.endswith("set_len") and len(e.term.args) > 1:
+            lt_ = w.sym.of_operand(body, e.term.args[1])
+            parts = list(_walk(lt_))
+            uses_pos = any(st_[0] == "param" and st_[:3] in pos_params for st_ in parts)
+            uses_len = any(st_[0] == "call" and st_[1].endswith("::len") for st_ in parts)
+            if uses_pos and not uses_len:
+                rep.ob(cfg, "f-trim-before-publish", key + ".length", "`%s` cuts the staging file to the written length" % short(g.path))
+            else:
+                rep.violation("f-trim-len:%s" % key,
+                              "`%s` cuts the staging file to %s rather than to the written length: the padding of a short mapped write would be "
+                              "published under the data's address" % (short(g.path), term_str(lt_)[:80]), loc=e.loc(), config=cfg, rule="f-trim-before-publish")
     succ = [rd for rd in ret_defs(prog, body) if rd.cls in ("success", "unknown")]
     reach = set()
     for st_ in somes:
